@@ -57,7 +57,9 @@ Definition dump_of (LF : Z) (n : nat) (s : store) (r : res unit) : dump :=
               (s_blocks s))
          (map (fun t => match t_handle (tget (s_toks s) t) with
                         | None => None
-                        | Some (hb, hi) => Some (index_of_pos hb (s_blocks s) 0, hi) end) ids)
+                        | Some (sid, hb, hi) =>
+                          (* a handle into another store: its block is not one of this store's blocks *)
+                          Some (if Pos.eqb sid (s_id s) then index_of_pos hb (s_blocks s) 0 else -1, hi) end) ids)
          (map (fun t => let z := t_size (tget (s_toks s) t) in (line z, col z)) ids)
          (s_len s)
          (map (obs_of LF s) ids
@@ -76,10 +78,10 @@ Definition dump_eqb (a b : dump) : bool :=
 
 Definition step (LF : Z) (s : store) (o : sop) : store * res unit :=
   match o with
-  | OEmpty => (empty_store (s_toks s), Ok tt)
+  | OEmpty => (empty_store (Pos.succ (s_id s)) (s_toks s), Ok tt)      (* a new store object *)
   | OFromTokens ts =>
     (* a failed from_tokens leaves the previous store in place on the Python side *)
-    match from_tokens LF (s_toks s) (map P ts) with
+    match from_tokens LF (Pos.succ (s_id s)) (s_toks s) (map P ts) with
     | (s', Ok u) => (s', Ok u)
     | (s', Err e) => (s, Err e)
     end
@@ -106,7 +108,7 @@ Fixpoint run_steps (LF : Z) (n : nat) (s : store) (steps : list (sop * dump)) : 
   end.
 
 Definition check_case (c : scase) : bool :=
-  let s0 := init_texts (empty_store (PositiveMap.empty tokrec)) 1%positive (c_texts c) in
+  let s0 := init_texts (empty_store 1%positive (PositiveMap.empty tokrec)) 1%positive (c_texts c) in
   run_steps (c_lf c) (length (c_texts c)) s0 (c_steps c).
 
 (* for diagnosis: the model's dumps *)
@@ -116,5 +118,5 @@ Fixpoint model_dumps (LF : Z) (n : nat) (s : store) (ops : list sop) : list dump
   | o :: r => let '(s', rr) := step LF s o in dump_of LF n s' rr :: model_dumps LF n s' r
   end.
 Definition model_trace (c : scase) : list dump :=
-  let s0 := init_texts (empty_store (PositiveMap.empty tokrec)) 1%positive (c_texts c) in
+  let s0 := init_texts (empty_store 1%positive (PositiveMap.empty tokrec)) 1%positive (c_texts c) in
   model_dumps (c_lf c) (length (c_texts c)) s0 (map fst (c_steps c)).
